@@ -91,13 +91,14 @@ impl SegmentLogReader {
             file_size = self.file_size();
             match self.read_next_batch(offset, file_size).await? {
                 Some((batch, bytes_read)) => {
-                    offset += bytes_read;
-                    let last_offset_in_batch = batch.base_offset + batch.last_offset_delta as u64;
-
-                    if last_offset_in_batch >= index_range.end.offset as u64 || offset >= file_size
+                    // The end index points to the position of the batch containing the last requested offset.
+                    // Its offset is relative to the segment start offset, so it cannot be compared with
+                    // the absolute offsets stored in the batch.
+                    if offset >= index_range.end.position as u64 || offset + bytes_read >= file_size
                     {
                         last_batch_to_read = true;
                     }
+                    offset += bytes_read;
                     batches.push(batch);
                 }
                 None => {
@@ -163,12 +164,12 @@ impl SegmentLogReader {
             file_size = self.file_size();
             match self.read_next_batch(offset, file_size).await? {
                 Some((batch, bytes_read)) => {
-                    offset += bytes_read;
-                    let last_offset_in_batch = batch.base_offset + batch.last_offset_delta as u64;
-                    if offset >= file_size || last_offset_in_batch >= index_range.end.offset as u64
+                    // See the comment in `load_batches_by_range_impl`.
+                    if offset >= index_range.end.position as u64 || offset + bytes_read >= file_size
                     {
                         last_batch_to_read = true;
                     }
+                    offset += bytes_read;
                     on_batch(batch)?;
                 }
                 None => {
